@@ -4,7 +4,7 @@ import Mathlib.Analysis.SpecialFunctions.Pow.Real
 C10 for Sacramento, part 2 — one pass of the drainage-and-percolation loop (`incBody`) over ℝ, zone by zone, and the
 loop invariant through `incLoop` by induction on the number of passes.
 -/
-namespace OW.RR.SacInv
+namespace OW.RR.Sac
 open OW OW.Kernels.Sacramento
 
 /-! ### the `Num ℝ` operations and literals are the ordinary real ones -/
@@ -56,7 +56,7 @@ rates and fractions lie in [0,1]; the area fractions satisfy pctim + adimp ≤ 1
 are non-negative (no condition on `rexp`); the unit-hydrograph proportions are non-negative with a positive sum.
 `5 ≤ lztwm`: a rain increment of the drainage loop is below 5 mm (`ninc = ⌊0.2·(uzfwc·adj + pav)⌋ + 1`), and the
 additional-impervious store overshoots (and then goes negative) when an increment exceeds `lztwm`
-(`adimc_overshoot_counterexample` in OW/Props/C10Sacramento.lean). -/
+(`sacramento_small_lztwm_counterexample` in OW/Props/C10Sacramento.lean). -/
 structure ParamsOk (p : Params ℝ) : Prop where
   lzpk0 : 0 ≤ p.lzpk
   lzpk1 : p.lzpk ≤ 1
@@ -411,6 +411,7 @@ full whenever there is a rain increment -/
 structure LoopConsts (p : Params ℝ) (uztwc pinc dinc duz dlzp dlzs hpl : ℝ) : Prop where
   pinc0 : 0 ≤ pinc
   pinc1 : pinc ≤ p.lztwm
+  pinc5 : pinc ≤ 5
   dinc0 : 0 ≤ dinc
   duz0 : 0 ≤ duz
   duz1 : duz ≤ 1
@@ -588,20 +589,12 @@ theorem LoopInv.tags {p : Params ℝ} {c : Consts ℝ} {uztwc : ℝ} {v : Inner 
     (adj : ℝ) (n : ℤ) : LoopInv p c uztwc (iiTags adj n v) :=
   ⟨hv.p0, hv.p1, hv.s0, hv.s1, hv.f0, hv.f1, hv.t0, hv.t1, hv.a0, hv.a1, hv.u, hv.bf0, hv.sf0, hv.in0, hv.ro0⟩
 
-/-- **One `ii` pass** (all `ninc` increments): for `adj ≥ 0` and an amount `pav ≥ 0` of rain in excess of the upper
-tension water (which is then full), the loop invariant is kept, the pervious-area water grows by exactly `pav` and the
-additional-impervious-area water by `adimp·pav`. The divisor `ninc` is ≥ 1. -/
-theorem iiBody_spec (p : Params ℝ) (c : Consts ℝ) (hp : ParamsOk p) (hc : ConstsOk c)
-    (uztwc hpl adj pav : ℝ) (hh : 0 ≤ hpl) (hu0 : 0 ≤ uztwc) (ha : 0 ≤ adj) (hpav : 0 ≤ pav)
-    (hfull : 0 < pav → uztwc = p.uztwm) (v : Inner ℝ) (hv : LoopInv p c uztwc v) :
-    LoopInv p c uztwc (iiBody p c uztwc hpl adj pav v) ∧
-    wp (iiBody p c uztwc hpl adj pav v) = wp v + pav ∧
-    wa p (iiBody p c uztwc hpl adj pav v) = wa p v + p.adimp * pav := by
-  rw [iiBody_eq]
-  obtain ⟨hn1, hn5⟩ := ninc_spec adj pav v.uzfwc ha hpav hv.f0
-  generalize nincOf adj pav v.uzfwc = n at hn1 hn5 ⊢
-  rw [N_ofInt]
-  sacnum
+/-- the constants of one `ii` pass satisfy `LoopConsts` (the divisor `ninc` is ≥ 1; the increment is below 5 mm) -/
+theorem ii_consts (p : Params ℝ) (hp : ParamsOk p) (uztwc hpl adj pav : ℝ) (n : ℤ) (hh : 0 ≤ hpl) (hu0 : 0 ≤ uztwc)
+    (ha : 0 ≤ adj) (hpav : 0 ≤ pav) (hfull : 0 < pav → uztwc = p.uztwm) (hn1 : 1 ≤ n) (hn5 : pav < 5 * (n : ℝ)) :
+    LoopConsts p uztwc (pav * (1 / (n : ℝ))) (1 / (n : ℝ) * adj)
+      (rateOf n adj p.uzk (1 / (n : ℝ) * adj)) (rateOf n adj p.lzpk (1 / (n : ℝ) * adj))
+      (rateOf n adj p.lzsk (1 / (n : ℝ) * adj)) hpl := by
   have hnR : (1 : ℝ) ≤ (n : ℝ) := by exact_mod_cast hn1
   have hn0 : (0 : ℝ) < (n : ℝ) := by linarith
   have hinv : 0 ≤ 1 / (n : ℝ) := by positivity
@@ -609,11 +602,10 @@ theorem iiBody_spec (p : Params ℝ) (c : Consts ℝ) (hp : ParamsOk p) (hc : Co
   have hpinc5 : pav * (1 / (n : ℝ)) ≤ 5 := by
     rw [mul_one_div, div_le_iff₀ hn0]; linarith
   have hdinc : 0 ≤ 1 / (n : ℝ) * adj := mul_nonneg hinv ha
-  have hk : LoopConsts p uztwc (pav * (1 / (n : ℝ))) (1 / (n : ℝ) * adj)
-      (rateOf n adj p.uzk (1 / (n : ℝ) * adj)) (rateOf n adj p.lzpk (1 / (n : ℝ) * adj))
-      (rateOf n adj p.lzsk (1 / (n : ℝ) * adj)) hpl :=
+  exact
     { pinc0 := hpinc0
       pinc1 := by linarith [hp.lztwm]
+      pinc5 := hpinc5
       dinc0 := hdinc
       duz0 := (rate_spec n adj p.uzk _ hp.uzk0 hp.uzk1 hdinc).1
       duz1 := (rate_spec n adj p.uzk _ hp.uzk0 hp.uzk1 hdinc).2
@@ -628,14 +620,96 @@ theorem iiBody_spec (p : Params ℝ) (c : Consts ℝ) (hp : ParamsOk p) (hc : Co
         have : pav = 0 := le_antisymm (not_lt.mp hc') hpav
         rw [this, zero_mul] at h
         exact lt_irrefl _ h) }
+
+/-- **One `ii` pass** (all `ninc` increments): for `adj ≥ 0` and an amount `pav ≥ 0` of rain in excess of the upper
+tension water (which is then full), the loop invariant is kept, the pervious-area water grows by exactly `pav` and the
+additional-impervious-area water by `adimp·pav`. The divisor `ninc` is ≥ 1. -/
+theorem iiBody_spec (p : Params ℝ) (c : Consts ℝ) (hp : ParamsOk p) (hc : ConstsOk c)
+    (uztwc hpl adj pav : ℝ) (hh : 0 ≤ hpl) (hu0 : 0 ≤ uztwc) (ha : 0 ≤ adj) (hpav : 0 ≤ pav)
+    (hfull : 0 < pav → uztwc = p.uztwm) (v : Inner ℝ) (hv : LoopInv p c uztwc v) :
+    LoopInv p c uztwc (iiBody p c uztwc hpl adj pav v) ∧
+    wp (iiBody p c uztwc hpl adj pav v) = wp v + pav ∧
+    wa p (iiBody p c uztwc hpl adj pav v) = wa p v + p.adimp * pav := by
+  rw [iiBody_eq]
+  obtain ⟨hn1, hn5⟩ := ninc_spec adj pav v.uzfwc ha hpav hv.f0
+  generalize nincOf adj pav v.uzfwc = n at hn1 hn5 ⊢
+  rw [N_ofInt]
+  sacnum
+  have hk := ii_consts p hp uztwc hpl adj pav n hh hu0 ha hpav hfull hn1 hn5
   obtain ⟨i1, i2, i3⟩ := incLoop_spec p c hp hc uztwc _ _ _ _ _ hpl hk n.toNat (iiTags adj n v) (hv.tags adj n)
+  have hnR : (1 : ℝ) ≤ (n : ℝ) := by exact_mod_cast hn1
   have hcast : ((n.toNat : ℕ) : ℝ) = (n : ℝ) := by
     have h : ((n.toNat : ℕ) : ℤ) = n := Int.toNat_of_nonneg (by linarith)
     exact_mod_cast congrArg (fun z : ℤ => (z : ℝ)) h
   have hmul : (n : ℝ) * (pav * (1 / (n : ℝ))) = pav := by
+    have : (n : ℝ) ≠ 0 := by linarith
     field_simp
   refine ⟨i1, ?_, ?_⟩
   · rw [i2, hcast, hmul]; rfl
   · rw [i3, hcast, hmul]; rfl
 
-end OW.RR.SacInv
+/-! ### the sharper bound on the additional impervious store for `lztwm ≥ 10`
+
+With `lztwm ≥ 10` a rain increment (< 5 mm) is at most `lztwm/2`, and then `adimc − uztwc ≤ lztwm` (saturation ratio
+≤ 1) is itself preserved: the additional impervious store stays within its nominal capacity `uztwm + lztwm`. -/
+
+theorem adimp_poly2 (L y r G : ℝ) (hL : 0 < L) (hy1 : 2 * y ≤ L) (hr0 : 0 ≤ r)
+    (hG1 : G ≤ r * L) (hG2 : r = 0 ∨ r * L = G) (hG3 : G ≤ L) : G + y * (1 - r * r) ≤ L := by
+  have hr1 : r ≤ 1 := by
+    rcases hG2 with h | h
+    · rw [h]; exact zero_le_one
+    · by_contra hc
+      have : L < r * L := by nlinarith
+      linarith
+  have hrr : 0 ≤ 1 - r * r := by nlinarith
+  have h1 : y * (1 - r * r) ≤ L / 2 * (1 - r * r) := mul_le_mul_of_nonneg_right (by linarith) hrr
+  have h2 : 0 ≤ L * ((1 - r) * (1 - r)) := mul_nonneg hL.le (mul_self_nonneg _)
+  have h3 : L - r * L - L / 2 * (1 - r * r) = L * ((1 - r) * (1 - r)) / 2 := by ring
+  linarith
+
+theorem incBody_G (p : Params ℝ) (c : Consts ℝ) (hp : ParamsOk p) (hc : ConstsOk c) (h10 : 10 ≤ p.lztwm)
+    (uztwc pinc dinc duz dlzp dlzs hpl : ℝ) (hk : LoopConsts p uztwc pinc dinc duz dlzp dlzs hpl)
+    (v : Inner ℝ) (hv : LoopInv p c uztwc v) (hG : v.adimc - uztwc ≤ p.lztwm) :
+    (incBody p c uztwc pinc dinc duz dlzp dlzs hpl v).adimc - uztwc ≤ p.lztwm := by
+  obtain ⟨hbp0, hbp1, hbp2, hbp3⟩ := bf_spec v.alzfpc dlzp c.alzfpm hv.p0 hv.p1 hk.dlzp0 hk.dlzp1
+  obtain ⟨hbs0, hbs1, hbs2, hbs3⟩ := bf_spec v.alzfsc dlzs c.alzfsm hv.s0 hv.s1 hk.dlzs0 hk.dlzs1
+  rw [← p2Of_eq] at hbp1 hbp2
+  rw [← s2Of_eq] at hbs1 hbs2
+  have hU := uzPart_spec p c hp hc dinc duz hpl v.uzfwc v.floin v.lztwc (s2Of dlzs v) (p2Of dlzp v)
+    hk.dinc0 hk.duz0 hk.duz1 hk.hpl0 hv.f0 hv.t0 hv.t1 hbs1 hbs2 hbp1 hbp2
+  rw [uzOf_eq] at hU
+  have hf1' : (uzOf p c dinc duz dlzp dlzs hpl v).1 ≤ p.uzfwm := le_trans hU.2.1 hv.f1
+  obtain ⟨y, hy0, hy1, hy2⟩ := addro_form p uztwc pinc v.adimc (uzOf p c dinc duz dlzp dlzs hpl v).1 hk.pinc0 hf1'
+  obtain ⟨hr0, hr1, hr2⟩ := ratio_spec p hp uztwc v.adimc
+  have h := adimp_poly2 p.lztwm y (ratioOf p uztwc v.adimc) (v.adimc - uztwc) hp.lztwm_pos
+    (by linarith [hk.pinc5]) hr0 hr1 hr2 hG
+  have e8 := incBody_adimc p c uztwc pinc dinc duz dlzp dlzs hpl v
+  sacnum at e8
+  rw [e8, hy2]
+  linarith
+
+theorem incLoop_G (p : Params ℝ) (c : Consts ℝ) (hp : ParamsOk p) (hc : ConstsOk c) (h10 : 10 ≤ p.lztwm)
+    (uztwc pinc dinc duz dlzp dlzs hpl : ℝ) (hk : LoopConsts p uztwc pinc dinc duz dlzp dlzs hpl) :
+    ∀ (n : ℕ) (v : Inner ℝ), LoopInv p c uztwc v → v.adimc - uztwc ≤ p.lztwm →
+      (incLoop p c uztwc pinc dinc duz dlzp dlzs hpl n v).adimc - uztwc ≤ p.lztwm := by
+  intro n
+  induction n with
+  | zero => intro v _ hG; exact hG
+  | succ n ih =>
+    intro v hv hG
+    exact ih _ (incBody_spec p c hp hc uztwc pinc dinc duz dlzp dlzs hpl hk v hv).1
+      (incBody_G p c hp hc h10 uztwc pinc dinc duz dlzp dlzs hpl hk v hv hG)
+
+theorem iiBody_G (p : Params ℝ) (c : Consts ℝ) (hp : ParamsOk p) (hc : ConstsOk c) (h10 : 10 ≤ p.lztwm)
+    (uztwc hpl adj pav : ℝ) (hh : 0 ≤ hpl) (hu0 : 0 ≤ uztwc) (ha : 0 ≤ adj) (hpav : 0 ≤ pav)
+    (hfull : 0 < pav → uztwc = p.uztwm) (v : Inner ℝ) (hv : LoopInv p c uztwc v)
+    (hG : v.adimc - uztwc ≤ p.lztwm) : (iiBody p c uztwc hpl adj pav v).adimc - uztwc ≤ p.lztwm := by
+  rw [iiBody_eq]
+  obtain ⟨hn1, hn5⟩ := ninc_spec adj pav v.uzfwc ha hpav hv.f0
+  generalize nincOf adj pav v.uzfwc = n at hn1 hn5 ⊢
+  rw [N_ofInt]
+  sacnum
+  have hk := ii_consts p hp uztwc hpl adj pav n hh hu0 ha hpav hfull hn1 hn5
+  exact incLoop_G p c hp hc h10 uztwc _ _ _ _ _ hpl hk n.toNat (iiTags adj n v) (hv.tags adj n) hG
+
+end OW.RR.Sac
